@@ -300,7 +300,9 @@ def render_xml(rng, stmts, shuffle=False):
         ntry_run = []
         for e in st["entries"]:
             pieces = ['<Amt Ccy="%s">%s</Amt>' % (ccy, amt_text(rng, e["amount"])), cd_el(e["cd"]),
-                      "<RvslInd>false</RvslInd>", "<Sts>BOOK</Sts>", render_date(rng, "BookgDt", e["booking"], e["dt_kind"])]
+                      # the reversal indicator says WHY the entry exists (a returned payment); the direction of the booking is
+                      # CdtDbtInd alone, whatever the indicator says
+                      rng.choice(["<RvslInd>false</RvslInd>", "<RvslInd>false</RvslInd>", "<RvslInd>true</RvslInd>", ""]), "<Sts>BOOK</Sts>", render_date(rng, "BookgDt", e["booking"], e["dt_kind"])]
             if e["value"] is not None:
                 pieces.append(render_date(rng, "ValDt", e["value"], e["dt_kind"]))
             if e["domain"]:
@@ -1319,7 +1321,7 @@ def run(chk):
         fund = fund_text(ACCOUNT, (2000, 1, 1), b0.text(), ccy)
         fund_sx = "(%s %s %s)" % (date_sx((2000, 1, 1)), b0.sx3(), enc(ccy))
         cid = "s%d" % i
-        hx_lines.append("%s cfg=%s src=%s fund=%s" % (cid, enc(yaml), enc(xml), enc(fund)))
+        hx_lines.append("%s cfg=%s src=%s fund=%s cmd=1" % (cid, enc(yaml), enc(xml), enc(fund)))
         hay = []
         for st in stmts:
             for e in st["entries"]:
@@ -1349,6 +1351,32 @@ def run(chk):
             ist, itx = "unparsed", str(e)
         iproc = parse_proc_impl(f.get("proc", "-"))
         chk.count("import:" + ist)
+        # the real COMMAND (cmd::ImportCmd::run on files: the glue of cli/src/cmd.rs); the book-keeping verdict below is then about
+        # the text the command printed
+        cmdv = f.get("cmd", "-")
+        chk.count("command:" + cmdv.split(":")[0])
+        if cmdv.startswith("diff"):
+            from impcommon import dec as _dec_text
+            try:
+                ctext = _dec_text(cmdv[5:])
+            except Exception:      # noqa
+                ctext = cmdv[5:]
+            # does okane's own book-keeping still accept what the COMMAND printed, and end at the closing balance?
+            cp = run_sharded(HX, ["c18", "books"], ["b fund=%s text=%s" % (enc(fund), enc(ctext))], 1)
+            _, cf = split_fields(cp[0])
+            cproc = parse_proc_impl(cf.get("proc", "-"))
+            bad = cproc[0] != "ok" or cproc[1].get(ACCOUNT, {}).get(ccy, Fraction(0)) != Fraction(closing, 100)
+            if bad and ist == "ok":
+                chk.oracle_failures += 1
+                chk.violation("Camt053 import breaks C18: the ledger printed by `okane import` for a consistent statement is rejected by okane's "
+                              "book-keeping or does not end at the closing balance (%s)" % (cf.get("proc", "")[:160],),
+                              dict(replay, command_output=ctext, library_printed=f.get("printed"), command_proc=cf.get("proc")))
+            else:
+                chk.disagreements += 1
+                chk.violation("`okane import` (ImportCmd::run on the files) does not print what import::import + to_double_entry give for the same statement",
+                              dict(replay, stream="c18 import command", command_output=ctext, library_printed=f.get("printed")),
+                              no_failing_input=True, tag="corr")
+            continue
         chk.count("proc:" + iproc[0] + (":" + iproc[2] if iproc[0] == "err" else ""))
         chk.count("order=" + order)
         chk.count("statements=%d" % len(stmts))
